@@ -126,6 +126,15 @@ def run_all(props: Optional[List[str]] = None, jobs: int = 16, only: Optional[st
         return list(ex.map(run_variant, vs))
 
 
+def run_cross_benign(prop: str, jobs: int = 16) -> List[dict]:
+    """false-alarm test: `prop`'s check must stay silent on the benign rewrites written for every OTHER property"""
+    vs = [dict(v, prop=prop, id=f"cross/{v['prop']}/{v['id']}") for v in load_variants() if v["kind"] == "B" and v["prop"] != prop]
+    if not vs:
+        return []
+    with ProcessPoolExecutor(max_workers=min(jobs, len(vs))) as ex:
+        return list(ex.map(run_variant, vs))
+
+
 def summarize(results: List[dict]) -> dict:
     s = {"variants": len(results), "mutants": 0, "mutants_caught": 0, "benign": 0, "benign_silent": 0, "skipped": 0,
          "failures": []}
@@ -149,9 +158,15 @@ def main(argv=None) -> int:
     ap.add_argument("props", nargs="*")
     ap.add_argument("--jobs", type=int, default=min(16, os.cpu_count() or 1))
     ap.add_argument("--only", default=None)
+    ap.add_argument("--cross", action="store_true", help="run each given property's check on the benign rewrites of all other properties")
     a = ap.parse_args(argv)
     t0 = time.time()
-    res = run_all([p.upper() for p in a.props] or None, a.jobs, a.only)
+    if a.cross:
+        res = []
+        for p in [p.upper() for p in a.props]:
+            res += run_cross_benign(p, a.jobs)
+    else:
+        res = run_all([p.upper() for p in a.props] or None, a.jobs, a.only)
     for r in res:
         flag = {"ok": "ok  ", "skipped": "SKIP"}.get(r["status"], "FAIL")
         print(f"{flag} {r['prop']} {r['kind']} {r['id']:<44} {r['status']:<14} {r.get('rule','')} {r.get('why','')[:200]}")
